@@ -50,6 +50,43 @@ def run_list(v, tests, env, timeout):
     raise MachineryError("listener driver failed:\n" + out[-4000:])
 
 
+def sess_routing_stage(v, scr, prop, invariants, th=False):
+    """Input routing of a session (FrameRouting!SessionEffect): crafted datagrams of every class at a real dialled session, three cipher
+    kinds, with / without an out-of-band handler; TLC (SessionRouteTrace) judges the given monitors and reports exit-code drift."""
+    outd = scr.sub("sessroute-out")
+    rc, out = vlib.go_test("./listdrv", "TestSessionRouting$", dict(VERIF_OUT=outd, LIST_STEPS=600 if th else 150), timeout=900)
+    if rc != 0:
+        import checks_sess
+        cs = checks_sess.crash_signature(out)
+        if cs and cs[0] == "panic":
+            v.violation("C05/ProcessPanic", "the process panicked inside kcp-go: %s\n%s" % (cs[1], out[-2500:]),
+                        dict(kind="list-run", tests="TestSessionRouting$", seed=vlib.seed()))
+            return
+        raise MachineryError("session routing driver failed:\n" + out[-3000:])
+    old = cc.obs_cfg
+    cc.obs_cfg = lambda inv: "SPECIFICATION Spec\nINVARIANTS " + " ".join(inv) + "\nCHECK_DEADLOCK FALSE\n"
+    try:
+        tpath = os.path.join(outd, "sess_routing.ndjson")
+        cc.validate_traces(v, scr, prop, tpath, "sess_routing", invariants, None, conformance=False, obs_module="SessionRouteTrace")
+        # drift: the exact exit of every datagram
+        tp = scr.path("trace.ndjson")
+        import shutil
+        shutil.copy(tpath, tp)
+        cfgp = cc.write_cfg(scr, "sessroute_drift.cfg", "SPECIFICATION Spec\nINVARIANTS Drift_SessionExit\nCHECK_DEADLOCK FALSE\n")
+        r = vlib.run_tlc(scr, "SessionRouteTrace", "sessroute_drift.cfg", workers=1, extra_files=[tp, cfgp], timeout=600)
+        if not r.ok:
+            if r.violation == "Drift_SessionExit":
+                v.drift.append("sess_routing: exit of UDPSession.packetInput/kcpInput differs from FrameRouting!SessionEffect at line %s" % vlib.tlc_last_var(r, "l"))
+            else:
+                raise MachineryError("SessionRouteTrace could not be evaluated:\n" + r.out[-2500:])
+    finally:
+        cc.obs_cfg = old
+    s = json.load(open(os.path.join(outd, "sess_routing.json")))
+    v.cov["evaluations"] += s["Events"]
+    v.cov["distinct_nontrivial"] += len(s["Kinds"])
+    v.notes["session_routing_exit_kinds"] = s["Kinds"]
+
+
 def check_c11(tier, replay):
     v = vlib.Verdict("C11", tier, "model_checking")
     scr = vlib.Scratch("c11")
